@@ -125,7 +125,7 @@ func (l *clusterLink) step(extra []pipeAction) {
 	var acts []pipeAction
 	for _, rc := range l.ready() {
 		rc := rc
-		acts = append(acts, pipeAction{fmt.Sprintf("exec %s c%d", rc.node.Addr, rc.ss.Conn.ID), 10, func() { rc.node.Step(rc.ss) }})
+		acts = append(acts, pipeAction{fmt.Sprintf("exec %s %s", rc.node.Addr, rc.ss.LabelString()), 10, func() { rc.node.Step(rc.ss) }})
 	}
 	if rem := l.remaining(); rem > 0 {
 		acts = append(acts, pipeAction{"feed", 8, func() {
